@@ -22,6 +22,7 @@ import (
 
 func init() {
 	Register(&Scenario{
+		Pools: true,
 		Name:  "relay",
 		Props: []string{"C11"},
 		Plan:  simple(40000, 2400000),
